@@ -27,7 +27,7 @@ func tupleIn(vals []driver.Value, width int, tuple []interface{}) bool {
 	return false
 }
 
-var c11Shapes = []string{"has-many-int", "has-many-int-pointers", "composite-int", "composite-int-single", "composite-string-3-1", "composite-string-1-3", "composite-string-nil", "belongs-to", "has-one", "duplicate-parent", "join-nested-preload", "composite-string-backslash", "belongs-to-string-nil", "join-self-nested", "join-self-nested-single"}
+var c11Shapes = []string{"has-many-int", "has-many-int-pointers", "composite-int", "composite-int-single", "composite-string-3-1", "composite-string-1-3", "composite-string-nil", "belongs-to", "has-one", "duplicate-parent", "join-nested-preload", "composite-string-backslash", "belongs-to-string-nil", "join-self-nested", "join-self-nested-single", "preload-args-reused"}
 
 func N_C11_Preload(tier int) int { return len(c11Shapes) }
 
@@ -278,6 +278,38 @@ func H_C11_Preload(shape int) {
 		verifrt.Assert(st[0].Manager != nil && st[0].Manager.ID == 7, "C11.wrong-child")
 		verifrt.Assert(st[0].Manager != nil && st[0].Manager.Manager != nil && st[0].Manager.Manager.ID == 9, "C11.nested-child-missing")
 		verifrt.Assert(st[1].Manager != nil && st[1].Manager.Manager == nil, "C11.null-foreign-key-attached")
+	case "preload-args-reused":
+		// Preload arguments (a scope function, then inline conditions) on a reusable handle:
+		// every execution sends the same child query, so the same children are attached
+		id1 := int64(verifrt.Intn("p1", 1, 3))
+		s.OnQuery = func(text string, args []driver.Value) RowSet {
+			if hasPrefix(text, "SELECT * FROM `owners`") {
+				return RowSet{Cols: []string{"id", "name"}, Rows: [][]driver.Value{{id1, "o1"}}}
+			}
+			return RowSet{Cols: []string{"id", "ownerid", "name"}, Rows: [][]driver.Value{{int64(10), id1, "p"}}}
+		}
+		x := verifrt.Int("x")
+		h := db.Preload("Pets", func(tx *gorm.DB) *gorm.DB { return tx.Where("id > ?", x) }, "name <> ?", "q").Session(&gorm.Session{})
+		var texts []string
+		var argss [][]driver.Value
+		for round := 0; round < 3; round++ {
+			var os []Owner
+			mark := len(s.Log)
+			verifrt.Assert(h.Find(&os).Error == nil, "C11.error")
+			verifrt.Assert(len(os) == 1 && len(os[0].Pets) == 1, "C11.children")
+			for _, e := range s.Log[mark:] {
+				if e.Kind == "QUERY" && hasPrefix(e.Text, "SELECT * FROM `pets`") {
+					texts = append(texts, e.Text)
+					argss = append(argss, e.Args)
+				}
+			}
+		}
+		verifrt.Assert(len(texts) == 3, "C11.child-queries")
+		for i := 1; i < len(texts); i++ {
+			verifrt.Assert(texts[i] == texts[0], "C11.preload-conditions-lost-on-reuse")
+			verifrt.Assert(len(argss[i]) == len(argss[0]), "C11.preload-conditions-lost-on-reuse")
+		}
+		verifrt.Assert(indexStr(texts[0], "id > ?") >= 0 && indexStr(texts[0], "name <> ?") >= 0, "C11.preload-conditions-missing")
 	case "join-self-nested-single":
 		// the same into a single struct (First / Take): a different branch of the preload entry point
 		s.OnQuery = func(text string, args []driver.Value) RowSet {
